@@ -79,6 +79,8 @@ type Config struct {
 	// means it was an orderly end (the simulated process exited) and not a
 	// failure of the code under test.
 	OnPanic func(v interface{}) bool
+	// CPUs is what the simulated machine reports as GOMAXPROCS / NumCPU (0: the real value).
+	CPUs int
 }
 
 // Sim is one simulated execution.
@@ -105,7 +107,14 @@ type Sim struct {
 	timers   []*Timer
 	timerSeq uint64
 	Fired    int // timers that fired
+	cpus     int
 }
+
+var runStart []func()
+
+// OnRunStart registers f to run at the start of every simulated run (the
+// instrumenter generates such registrations; see simgen.reinitPackageLevel).
+func OnRunStart(f func()) { runStart = append(runStart, f) }
 
 var active unsafe.Pointer // *Sim
 
@@ -141,6 +150,10 @@ func Run(cfg Config, body func(s *Sim)) *Result {
 		Probes: map[string]int{}, Faults: map[string]int{}, sched: cfg.Sched, minPri: 1 << 62}
 	atomic.StorePointer(&active, unsafe.Pointer(s))
 	defer atomic.StorePointer(&active, nil)
+	s.cpus = cfg.CPUs
+	for _, f := range runStart {
+		f() // package-level channels and sync objects of the instrumented code: made anew, inside the bubble
+	}
 	g0 := s.newG("main")
 	go s.entry(g0, func() { body(s) })
 	s.loop()
@@ -436,6 +449,12 @@ func (s *Sim) dropTimer(t *Timer) {
 		}
 	}
 }
+
+// SetCPUs sets what the simulated machine reports as GOMAXPROCS / NumCPU.
+func (s *Sim) SetCPUs(n int) { s.cpus = n }
+
+// CPUs is the simulated machine's size (0: not set, the real one applies).
+func (s *Sim) CPUs() int { return s.cpus }
 
 // PendingTimers is the number of armed timers.
 func (s *Sim) PendingTimers() int { return len(s.timers) }
